@@ -124,3 +124,49 @@ theorem get_foldl_applyWrite (shared : List Str) (ws : List (Nat × Nat × CellX
       simp [h]
 
 end Tabula.Sheet
+
+namespace Tabula.Sheet
+open Tabula.A1
+
+theorem splitAux_append_clean (sep : Nat) (x rest cur : Str) (hx : sep ∉ x) :
+    splitAux sep (x ++ rest) cur = splitAux sep rest (x.reverse ++ cur) := by
+  induction x generalizing cur with
+  | nil => rfl
+  | cons a as ih =>
+    have ha : a ≠ sep := fun h => hx (by simp [h])
+    have has : sep ∉ as := fun h => hx (by simp [h])
+    simp only [List.cons_append, splitAux, ha, if_false]
+    rw [ih _ has]
+    simp
+
+theorem splitOn_intercalate (sep : Nat) (xs : List Str) (hne : xs ≠ [])
+    (hclean : ∀ x ∈ xs, sep ∉ x) : splitOn sep (intercalate [sep] xs) = xs := by
+  unfold splitOn
+  induction xs with
+  | nil => exact absurd rfl hne
+  | cons x rest ih =>
+    cases rest with
+    | nil =>
+      simp only [intercalate]
+      have := splitAux_append_clean sep x [] [] (hclean x (by simp))
+      simp only [List.append_nil] at this
+      rw [this]
+      simp [splitAux]
+    | cons y ys =>
+      simp only [intercalate, List.append_assoc]
+      rw [splitAux_append_clean sep x _ [] (hclean x (by simp))]
+      simp only [List.append_nil, List.singleton_append, splitAux, if_true, List.reverse_reverse]
+      rw [ih (by simp) (fun z hz => hclean z (by simp [hz]))]
+
+theorem not_mem_intercalate (sep a : Nat) (xs : List Str) (hne : a ≠ sep)
+    (h : ∀ x ∈ xs, a ∉ x) : a ∉ intercalate [sep] xs := by
+  induction xs with
+  | nil => simp [intercalate]
+  | cons x rest ih =>
+    cases rest with
+    | nil => simpa [intercalate] using h x (by simp)
+    | cons y ys =>
+      simp only [intercalate, List.mem_append, not_or]
+      refine ⟨⟨h x (by simp), by simpa using hne⟩, ih (fun z hz => h z (by simp [hz]))⟩
+
+end Tabula.Sheet
